@@ -365,9 +365,13 @@ theorem expire_coh {s : St} (hc : Coh s) (ms : Nat) : Coh { s with cache := expi
   split at hk
   · rename_i e0 he0
     split at hk
-    · cases hk
-    · cases hk
+    · simp only [Option.some.injEq] at hk
+      subst hk
       exact hc k e0 he0 ho
+    · split at hk
+      · cases hk
+      · cases hk
+        exact hc k e0 he0 ho
   · cases hk
 
 theorem tick_coh {s : St} (hc : Coh s) (down : List Bool) : Coh (tick s down).1 := by
